@@ -8,29 +8,31 @@ from lib.tlaval import to_tla
 LEVEL = 'model_checking'
 NONE = -1000
 KEYS = ('id', 'defPulseMs', 'maxPulseMs', 'defPP', 'maxPP', 'defHP', 'maxHP', 'allowEnable', 'maxHoldDur', 'defTE', 'pwte',
-        'dynP', 'dynT')
+        'dynP', 'dynT', 'light')
 EPS = 1e-6
 REL = 10        # release_wait_ms of the power supply shared by all coils of the generated machine
 
 
 def C(i, defPulseMs=10, maxPulseMs=0, defPP=0, maxPP=100, defHP=0, maxHP=0, allowEnable=False, maxHoldDur=0, defTE=0, pwte=False,
-      dynP=False, dynT=False, src='var'):
+      dynP=False, dynT=False, src='var', light=False):
+    # light: the coil is also the channel of a light (lights: l<id> with platform: drivers, number: c<id>)
     # dynP / dynT: default_pulse_ms / default_timed_enable_ms are placeholders (src: a machine variable or an operator
     # setting) whose value changes while the machine runs; defPulseMs / defTE are the values at boot
     return dict(id=i, defPulseMs=defPulseMs, maxPulseMs=maxPulseMs, defPP=defPP, maxPP=maxPP, defHP=defHP, maxHP=maxHP,
-                allowEnable=allowEnable, maxHoldDur=maxHoldDur, defTE=defTE, pwte=pwte, dynP=dynP, dynT=dynT, src=src)
+                allowEnable=allowEnable, maxHoldDur=maxHoldDur, defTE=defTE, pwte=pwte, dynP=dynP, dynT=dynT, src=src,
+                light=light)
 
 
 TABLE = [
-    C(1),
+    C(1, light=True),
     C(2, maxPulseMs=30, defPP=50, maxPP=50),
     C(3, allowEnable=True),
-    C(4, maxHP=50, defHP=25, maxHoldDur=1000),
-    C(5, allowEnable=True, maxHP=50),
-    C(6, defPulseMs=20, maxPulseMs=400, maxPP=100, allowEnable=True, maxHoldDur=2000, defTE=100),
+    C(4, maxHP=50, defHP=25, maxHoldDur=1000, light=True),
+    C(5, allowEnable=True, maxHP=50, light=True),
+    C(6, defPulseMs=20, maxPulseMs=400, maxPP=100, allowEnable=True, maxHoldDur=2000, defTE=100, light=True),
     C(7, pwte=True, maxHP=50, defTE=100, maxHoldDur=1000),
     C(8, defHP=50),
-    C(9, maxPulseMs=30, allowEnable=True, maxHoldDur=1000, defTE=100, dynP=True, dynT=True),
+    C(9, maxPulseMs=30, allowEnable=True, maxHoldDur=1000, defTE=100, dynP=True, dynT=True, light=True),
     C(10, maxPulseMs=400, defPP=50, maxPP=50, dynP=True, src='setting'),
 ]
 MS = [NONE, -5, 0, 10, 30, 300]
@@ -40,6 +42,13 @@ STEPS = [100, 300, 1000]
 DEFV = [-5, 0, 10, 20, 45, 300, 2000]      # values of the placeholders behind the defaults
 MW = [NONE, 45, 495]                       # max_wait_ms (never a multiple of 10: no float ties with the busy time)
 OTHER = [30, 100]                          # pulses of the other coil on the power supply
+LIGHTS = tuple(c['id'] for c in TABLE if c['light'])
+TICK = 20                                  # ms between the steps of a software fade (mpf: default_light_hw_update_hz 50)
+# brightness of the light on a coil: whole channel values (k * 51 / 255).  Fade times: an ODD number of fade steps, so
+# that no step of a fade between any two channel values ever lands on a hold power limit of 50 % itself (where float
+# noise would decide whether the coil refuses)
+LV = [0, 20, 40, 60, 100]
+FADES = [0, 60, 100]
 
 
 def cfg_rec(c):
@@ -92,7 +101,25 @@ def write_machine(scratch):
                 f.write('    pulse_with_timed_enable: true\n')
             f.write('    pulse_events: %s_pulse\n    enable_events: %s_enable\n    disable_events: %s_disable\n'
                     '    timed_enable_events: %s_timed_enable\n' % (n, n, n, n))
+        # lights whose channel is a coil (flashers / GI strings on driver outputs)
+        f.write('lights:\n')
+        for i in LIGHTS:
+            f.write('  l%d:\n    number: c%d\n    platform: drivers\n' % (i, i))
+        f.write('light_player:\n')
+        for i in LIGHTS:
+            for b in LV:
+                for fd in sorted(set(FADES + [300])):
+                    f.write('  l%d_b%d_f%d:\n    l%d:\n      color: "%s"\n      fade: %dms\n' % (i, b, fd, i, ('%02x' % chan(b)) * 3, fd))
+        f.write('flasher_player:\n')
+        for i in LIGHTS:
+            for ms in (50, 100, 1500):
+                f.write('  l%d_flash_%d:\n    l%d: %dms\n' % (i, ms, i, ms))
     return d
+
+
+def chan(b):
+    """Channel value (0..255) of a brightness in percent."""
+    return int(round(b * 255 / 100.0))
 
 
 VALUES = {
@@ -111,7 +138,7 @@ VALUES = {
 
 
 def write_mc(wd, values, maxops, props=True, configs=None, mw=(NONE,), other=(), defv=(), steps=STEPS, maxtime=6000, name='MC.cfg',
-             maxpend=2):
+             maxpend=2, lv=(), fades=()):
     """Write CoilMC.tla (the constants that cannot be written in a .cfg) and the TLC config `name`."""
     v = VALUES[values]
     cs = [c for c in TABLE if configs is None or c['id'] in configs]
@@ -128,9 +155,11 @@ MCMw == {%s}
 MCOther == {%s}
 MCDef == {%s}
 MCSteps == {%s}
+MCLightVals == {%s}
+MCFadeMs == {%s}
 =============================================================================
 """ % (NONE, ',\n  '.join(to_tla(cfg_rec(c)) for c in cs), st(v['ms']), st(v['pw']), st(v['te']), st(mw), st(other), st(defv),
-       st(steps)))
+       st(steps), st(lv), st(fades)))
     with open(wd + '/' + name, 'w') as f:
         f.write("""SPECIFICATION Spec
 CONSTANTS
@@ -144,15 +173,18 @@ CONSTANTS
   OtherMs <- MCOther
   DefVals <- MCDef
   Steps <- MCSteps
+  LightVals <- MCLightVals
+  FadeMs <- MCFadeMs
+  Tick = %d
   Rel = %d
   MaxPend = %d
   MaxTime = %d
   MaxOps = %d
 %sCHECK_DEADLOCK FALSE
-""" % (REL, maxpend, maxtime, maxops, ('PROPERTY Envelope\n' + ''.join('INVARIANT %s\n' % i for i in MONITORS[1:])) if props else ''))
+""" % (TICK, REL, maxpend, maxtime, maxops, ('PROPERTY Envelope\n' + ''.join('INVARIANT %s\n' % i for i in MONITORS[1:])) if props else ''))
 
 
-MONITORS = ['Envelope', 'RefuseNotCommand', 'SoftwarePulseEnds', 'HoldWatchdog', 'PendSane', 'NothingOverdue']
+MONITORS = ['Envelope', 'RefuseNotCommand', 'SoftwarePulseEnds', 'HoldWatchdog', 'HeldNoLonger', 'PendSane', 'NothingOverdue']
 
 
 _H = {}
@@ -213,11 +245,75 @@ def record_rules(platform, log):
         setattr(platform, attr, rec)
 
 
+def record_light_channels():
+    """Record every brightness step a light channel on a coil makes (DriverLight.set_brightness: the call through which
+    a light with platform: drivers actuates its coil): a begin marker with the brightness asked for and the time, the
+    commands that reach the platform in between, an end marker telling whether the step raised."""
+    from mpf.platforms.driver_light_platform import DriverLight
+    inner = DriverLight.set_brightness
+    if getattr(inner, '_c08_rec', False):
+        return
+
+    def set_brightness(self, brightness):
+        h = _H.get('h')
+        log = _H.get('log')
+        if h is None or log is None or getattr(self.driver, 'machine', None) is not h.machine:
+            return inner(self, brightness)
+        name = self.driver.name
+        log.append((name, ['@begin', pct(brightness), int(round(brightness * 10000)), h.machine.clock.get_time()]))
+        try:
+            r = inner(self, brightness)
+        except BaseException:
+            log.append((name, ['@end', True]))
+            raise
+        log.append((name, ['@end', False]))
+        return r
+    set_brightness._c08_rec = True
+    DriverLight.set_brightness = set_brightness
+
+
+def split_step(rec, seg, pos, tbase):
+    """One schedule step and what was recorded while it ran -> trace events.  Every brightness step of the light channel
+    becomes an event of its own ('light': brightness in percent as the platform is told and in 1/100 percent as asked,
+    the commands it caused, whether it raised) at the time it happened: an 'adv' during which steps of a fade happen is
+    cut at these steps (part: the piece ends at a step of the light; pos / tbase: nominal ms and clock at trace start)."""
+    adv = rec['op'] == 'adv'
+    end = pos + rec['d'] if adv else pos
+    out = []
+    cur = rec
+    cur['cmds'] = []
+    if adv:
+        cur['part'] = False
+    tail = False
+    for c in seg:
+        if c[0] == '@begin':
+            if adv:
+                tn = min(end, max(pos, int(round((c[3] - tbase) * 1000.0 / (1 + EPS)))))
+                cur['d'] = tn - pos
+                cur['part'] = True
+                pos = tn
+            if not tail or adv or cur['cmds']:
+                out.append(cur)
+            cur = {'op': 'light', 'b': c[1], 'bf': c[2], 'cmds': [], 'err': False}
+        elif c[0] == '@end':
+            cur['err'] = bool(c[1])
+            out.append(cur)
+            tail = True
+            cur = ({'op': 'adv', 'd': end - pos, 'part': False, 'cmds': [], 'err': False} if adv
+                   else {'op': 'lightreq', 'cmds': [], 'err': False})
+        else:
+            cur['cmds'].append(c)
+    if not tail or adv or cur['cmds']:
+        out.append(cur)
+    return out
+
+
 def _machine(mdir):
     if 'h' not in _H:
         h = harness.boot(None, machine_dir=mdir)
         _H['h'] = h
         _H['log'] = []
+        record_light_channels()
         for c in TABLE:
             coil = h.machine.coils['c%d' % c['id']]
             coil.hw_driver = RecDriver(coil.hw_driver, _H['log'], coil.name)
@@ -230,9 +326,9 @@ def arg(x, scale=1.0):
 
 
 def exec_schedule(job):
-    mdir, cid, sched, via_events = job
+    mdir, cid, sched, via_events = job[:4]
     try:
-        return _exec(mdir, cid, sched, via_events)
+        return _exec(mdir, cid, sched, via_events, job[4] if len(job) > 4 else 'color')
     except Exception as ex:  # pylint: disable=broad-except
         import traceback
         _H.pop('h', None)
@@ -252,7 +348,7 @@ def set_default(h, c, which, v):
         h.advance_time_and_run(0)
 
 
-def _exec(mdir, cid, sched, via_events):
+def _exec(mdir, cid, sched, via_events, lvia='color'):
     from mpf.core.platform_controller import SwitchRuleSettings, DriverRuleSettings, PulseRuleSettings, HoldRuleSettings
     h = _machine(mdir)
     m = h.machine
@@ -260,6 +356,9 @@ def _exec(mdir, cid, sched, via_events):
     coil = m.coils['c%d' % cid]
     other = m.coils['other']
     log = _H['log']
+    light = m.lights['l%d' % cid] if c['light'] else None
+    if light is not None:
+        light.clear_stack()         # dark, nothing left on its stack, no fade running
     coil.disable()
     if c['dynP']:
         set_default(h, c, 'pulse_ms', c['defPulseMs'])
@@ -268,6 +367,8 @@ def _exec(mdir, cid, sched, via_events):
     h.advance_time_and_run(10)
     del log[:]
     ev = []
+    tbase = m.clock.get_time()
+    pos = 0         # nominal ms since the start of the trace
 
     def call(fn, evname, kw):
         """Run one request either as a direct method call or through the coil's control event."""
@@ -306,9 +407,26 @@ def _exec(mdir, cid, sched, via_events):
         rec = {'op': op}
         mw = s.get('mw', NONE)
         refused = False
+        died = False
         if op == 'adv':
             rec['d'] = s['d']
-            h.advance_time_and_run(s['d'] * (1 + EPS) / 1000.0)
+            try:
+                h.advance_time_and_run(s['d'] * (1 + EPS) / 1000.0)
+            except Exception:  # pylint: disable=broad-except
+                # a step of a fade that the coil refused: the error ends the fade task and stops the test machine
+                mine = [x for (n, x) in log if n == coil.name]
+                if not (mine and mine[-1] == ['@end', True]):
+                    raise
+                died = True
+        elif op in ('lighton', 'lightflash'):
+            rec = {'op': 'lightreq'}
+            try:
+                light_request(h, light, s, lvia)
+            except Exception:  # the coil refused the brightness step (told by the step itself)  pylint: disable=broad-except
+                mine = [x for (n, x) in log if n == coil.name]
+                if not (mine and mine[-1] == ['@end', True]):
+                    raise
+                died = lvia == 'player' or op == 'lightflash'     # raised inside an event handler: the test machine has stopped
         elif op == 'pulse':
             rec.update(ms=s['ms'], pp=s['pp'], mw=mw)
             refused = call(coil.pulse, 'pulse', dict(pulse_ms=arg(s['ms']), pulse_power=arg(s['pp'], 100.0), max_wait_ms=arg(mw)))
@@ -339,17 +457,50 @@ def _exec(mdir, cid, sched, via_events):
             set_default(h, c, s['w'], s['v'])
         else:
             raise ValueError(op)
-        if op != 'adv':
-            h.advance_time_and_run(0)
-        rec['cmds'] = [cmd for (n, cmd) in log if n == coil.name]
+        if op != 'adv' and not died:
+            try:
+                h.advance_time_and_run(0)
+            except Exception:  # pylint: disable=broad-except
+                mine = [x for (n, x) in log if n == coil.name]
+                if not (mine and mine[-1] == ['@end', True]):
+                    raise
+                died = True
         rec['err'] = bool(refused)
+        pieces = split_step(rec, [cmd for (n, cmd) in log if n == coil.name], pos, tbase)
         del log[:]
-        ev.append(rec)
+        if died:
+            # the trace ends with the refused step
+            while pieces and pieces[-1]['op'] != 'light':
+                pieces.pop()
+            ev.extend(pieces)
+            _H.pop('h', None)
+            break
+        ev.extend(pieces)
+        if op == 'adv':
+            pos += s['d']
         if via_events and refused and op != 'rule':
             # an exception in an event handler stops the test machine: start over with a fresh one
             _H.pop('h', None)
             break
-    return {'cfg': cfg_rec(c), 'ev': ev, '_via_events': via_events}
+    return {'cfg': cfg_rec(c), 'ev': ev, '_via_events': via_events, '_lvia': lvia}
+
+
+def light_request(h, light, s, lvia):
+    """Ask the light on the coil for a brightness (at once or fading) / a flash, through one of the ways a user has."""
+    m = h.machine
+    if s['op'] == 'lightflash':
+        m.events.post('%s_flash_%d' % (light.name, s['ms']))
+    elif lvia == 'player':
+        m.events.post('%s_b%d_f%d' % (light.name, s['b'], s['f']))
+    elif lvia == 'onoff':
+        if s['b'] == 0:
+            light.off(fade_ms=s['f'], key='k')
+        else:
+            light.on(brightness=chan(s['b']), fade_ms=s['f'], key='k')
+    else:
+        light.color([chan(s['b'])] * 3, fade_ms=s['f'])
+    h.advance_time_and_run(0)
+    h.advance_time_and_run(0)
 
 
 # ------------------------------------------------------------------------------ device traces (envelope only)
@@ -366,7 +517,7 @@ def coil_env(coil):
     return dict(id=0, defPulseMs=0, maxPulseMs=int(cf['max_pulse_ms'] or 0), defPP=pct(cf['default_pulse_power'] or 0),
                 maxPP=pct(cf['max_pulse_power'] or 0), defHP=pct(cf['default_hold_power'] or 0), maxHP=pct(cf['max_hold_power'] or 0),
                 allowEnable=bool(cf['allow_enable']), maxHoldDur=int((cf['max_hold_duration'] or 0) * 1000), defTE=0, pwte=False,
-                dynP=False, dynT=False)
+                dynP=False, dynT=False, light=False)
 
 
 def exec_fuzz(job):
@@ -474,6 +625,55 @@ def handmade():
     return res
 
 
+def handmade_lights():
+    """(configurations, schedule, way the light is asked) for the coils that are also the channel of a light."""
+    E = lambda ms=NONE, pp=NONE, hp=NONE, mw=NONE: {'op': 'enable', 'ms': ms, 'pp': pp, 'hp': hp, 'mw': mw}
+    P = lambda ms=NONE, pp=NONE, mw=NONE: {'op': 'pulse', 'ms': ms, 'pp': pp, 'mw': mw}
+    A = lambda d: {'op': 'adv', 'd': d}
+    O = lambda ms: {'op': 'other', 'ms': ms}
+    S = lambda w, v: {'op': 'setdef', 'w': w, 'v': v}
+    L = lambda b, f=0: {'op': 'lighton', 'b': b, 'f': f}
+    F = lambda ms: {'op': 'lightflash', 'ms': ms}
+    D = {'op': 'disable'}
+    res = []
+    for k, sch in enumerate([
+            # the light is switched on (at once / fading) and left on: a coil with max_hold_duration is released in time
+            [L(40), A(300), A(300), A(1000), A(1000), A(1000)],
+            [L(40, 100), A(100), A(1000), A(1000), A(1000)],
+            [L(40, 300), A(1000), A(1000), A(1000)],
+            # brightness changes / a fade must not push the hold watchdog back
+            [L(20), A(300), L(40), A(300), L(20, 60), A(300), A(300), A(1000), A(1000)],
+            [L(20), A(300), A(300), L(40, 300), A(300), A(300), A(1000), A(1000)],
+            # direct calls in between the steps of a fade
+            [L(40, 300), A(100), E(), A(100), D, A(300), A(1000), A(1000), A(1000)],
+            [E(), A(300), L(40, 100), A(300), A(300), A(300), A(1000), A(1000)],
+            [L(40), A(100), P(300), A(100), A(300), A(1000), A(1000)],
+            [P(300), A(100), L(40, 100), A(100), A(100), A(1000), A(1000), A(1000)],
+            # brightness above the hold power the coil allows: refused, also in the middle of a fade
+            [L(100), A(100), L(0), A(100), L(60), A(1000), A(1000), A(1000)],
+            [L(100, 100), A(300), A(1000), A(1000), A(1000)],
+            [L(40), A(100), L(60, 100), A(300), A(1000), A(1000)],
+            # a fade replaced by another fade / switched off half way
+            [L(40, 100), A(30), L(0, 60), A(30), L(40, 100), A(300), A(1000), A(1000), A(1000)],
+            [L(40, 300), A(100), L(0), A(300), L(20, 60), A(1000), A(1000), A(1000)],
+            # flashes (flasher_player): full brightness for a time, shorter and longer than max_hold_duration
+            [F(100), A(300), F(50), A(300), A(1000)],
+            [F(1500), A(1000), A(1000), A(1000), A(1000)],
+            [L(20), A(100), F(100), A(300), A(1000), A(1000), A(1000)],
+            # with a postponed enable on a busy power supply
+            [O(100), E(mw=495), L(40), A(100), A(100), L(0), A(1000), A(1000), A(1000)],
+            [O(100), E(mw=495), L(40, 100), A(300), D, A(1000), A(1000)],
+    ]):
+        res.append((LIGHTS, sch, ('color', 'player', 'onoff')[k % 3]))
+        if k < 4:
+            res.append((LIGHTS, sch, ('player', 'onoff', 'color')[k % 3]))
+    # the light enables with the coil's default pulse: the placeholder behind it changes
+    res.append(((9,), [S('pulse_ms', 45), L(40), A(100), S('pulse_ms', 20), L(60, 60), A(300), S('pulse_ms', 2000), A(300), L(20), A(1000),
+                       A(1000)], 'color'))
+    res.append(((9,), [L(20, 300), A(100), S('pulse_ms', 45), A(300), A(1000)], 'color'))
+    return res
+
+
 def run(ctx):
     mdir = write_machine(ctx.scratch)
     wd = tlc.prepare(ctx.scratch, 'Coil', 'coil')
@@ -488,6 +688,14 @@ def run(ctx):
     r = tlc.expect_ok(tlc.check(wd, 'CoilMC', 'MC.cfg', timeout=3000), 'Coil design check (interleavings)')
     ctx.add_tlc('CoilMC interleavings', r, {'configs': len(inter['configs']), 'MaxOps': 3 if ctx.quick else 4, 'MaxPend': 2,
                                             'steps': inter['steps']})
+    # (3) the coil as the channel of a light: brightness requests and software fades interleaved with direct requests and timers
+    # (time is cut fine here - the steps of a fade are TICK ms apart - so the horizon is just beyond a max_hold_duration of 1 s)
+    lmc = dict(configs=(1, 4, 9) if ctx.quick else LIGHTS, lv=(0, 40, 100), fades=(0, 60), steps=[40 if ctx.quick else 20, 1000],
+               maxtime=1100)
+    write_mc(wd, 'tiny', 2 if ctx.quick else 3, **lmc)
+    r = tlc.expect_ok(tlc.check(wd, 'CoilMC', 'MC.cfg', timeout=3000), 'Coil design check (lights on coils)')
+    ctx.add_tlc('CoilMC lights', r, {'configs': len(lmc['configs']), 'MaxOps': 2 if ctx.quick else 3, 'brightness': lmc['lv'],
+                                     'fade_ms': lmc['fades'], 'steps': lmc['steps']})
     ctx.coverage['monitors'] += MONITORS
     q = ctx.quick
     # schedules: (a) all value classes, (b) mostly valid values with the power supply in play, (c) few values, busy
@@ -499,9 +707,16 @@ def run(ctx):
     write_mc(wd, 'small', 12, props=False, name='Gen.cfg', configs=(4, 6, 7, 9, 10), mw=MW, other=OTHER, defv=DEFV,
              steps=[30, 100, 300, 1000], maxpend=3)
     behs3, _ = tlc.simulate(wd, 'CoilMC', 'Gen.cfg', num=250 if q else 4000, depth=20 if q else 28, seed=ctx.seed + 23)
+    # (d) the coils that are also the channel of a light: brightness requests and fades mixed with the direct calls
+    write_mc(wd, 'small', 12, props=False, name='Gen.cfg', configs=LIGHTS, mw=(NONE, 495), other=(100,), defv=(20, 45),
+             steps=[30, 100, 300, 1000], maxpend=3, lv=LV, fades=FADES)
+    behs4, _ = tlc.simulate(wd, 'CoilMC', 'Gen.cfg', num=250 if q else 4000, depth=20 if q else 28, seed=ctx.seed + 37)
     rnd = random.Random(ctx.seed)
-    jobs = [(mdir, b[0]['cfg']['id'], [s['act'] for s in b], rnd.random() < 0.3) for b in behs + behs2 + behs3]
-    jobs += [(mdir, cid, sch, False) for cids, sch in handmade() for cid in cids]
+    jobs = [(mdir, b[0]['cfg']['id'], [s['act'] for s in b], rnd.random() < 0.3, 'color') for b in behs + behs2 + behs3]
+    jobs += [(mdir, cid, sch, False, 'color') for cids, sch in handmade() for cid in cids]
+    rnd = random.Random(ctx.seed + 1)
+    jobs += [(mdir, b[0]['cfg']['id'], [s['act'] for s in b], False, rnd.choice(['color', 'color', 'onoff', 'player'])) for b in behs4]
+    jobs += [(mdir, cid, sch, False, lvia) for cids, sch, lvia in handmade_lights() for cid in cids]
     traces = harness.pmap(exec_schedule, jobs, chunk=8, item_timeout=90)
     ctx.log('api schedules executed: %d' % len(traces))
     repo = os.environ.get('VERIF_REPO', '/repo')
@@ -519,6 +734,9 @@ def run(ctx):
                                                  if e.get('mw', NONE) != NONE and not e.get('err') and not e.get('cmds')
                                                  and e['op'] in ('pulse', 'enable'))
     ctx.coverage['api_default_changes'] = sum(1 for t in traces for e in t['ev'] if e['op'] == 'setdef')
+    ctx.coverage['light_requests'] = sum(1 for t in traces for e in t['ev'] if e['op'] == 'lightreq')
+    ctx.coverage['light_channel_steps_judged'] = sum(1 for t in traces for e in t['ev'] if e['op'] == 'light')
+    ctx.coverage['light_channel_steps_refused'] = sum(1 for t in traces for e in t['ev'] if e['op'] == 'light' and e.get('err'))
     alltr = traces + ftraces
     with open(wd + '/Trace.cfg', 'w') as f:
         f.write("""SPECIFICATION TSpec
@@ -533,6 +751,9 @@ CONSTANTS
   OtherMs = {}
   DefVals = {}
   Steps = {}
+  LightVals = {}
+  FadeMs = {}
+  Tick = %d
   Rel = %d
   MaxPend = 1000000
   MaxTime = 100000000
@@ -540,7 +761,7 @@ CONSTANTS
 INVARIANT Reporter
 INVARIANT RefuseNotCommand
 CHECK_DEADLOCK FALSE
-""" % REL)
+""" % (TICK, REL))
     v = tlc.validate_traces(wd, 'CoilTrace', 'Trace.cfg', alltr)
     tlc.finish_diagnosis(wd, 'CoilTrace', 'Trace.cfg', alltr, v)
     ctx.add_trace_verdict('CoilTrace', v, len(alltr))
@@ -557,20 +778,35 @@ CHECK_DEADLOCK FALSE
             what = 'command %s of coil %s in %s outside its envelope %s' % (fe.get('c'), tr['_coil'], tr['_machine'], tr['cfg'])
             rp = {'kind': 'fuzz', 'job': list(fuzz_jobs[0]), 'trace': tr, 'info': info}
         else:
-            sig = 'C08:api:%s:%s' % (fe.get('op', '?'), classify(fe, tr['cfg']))
+            cls = classify(fe, tr['cfg'], tr, info.get('line'))
+            sig = 'C08:api:%s:%s' % (fe.get('op', '?'), cls)
             what = 'coil call not explained by Coil spec at line %s: %s (cfg %s)' % (info.get('line'), fe, tr['cfg'])
-            rp = {'kind': 'api', 'job': [jobs[i][1], jobs[i][2], jobs[i][3]], 'trace': tr, 'info': info}
+            if cls == 'coil-on-through-its-light':
+                what += ('; the coil was last switched on by a brightness step of its light (lights: platform: drivers), and what the '
+                         'platform driver then saw in this step is not what the coil\'s envelope (hold watchdog max_hold_duration '
+                         '%s ms, power limits) allows: %s' % (tr['cfg']['maxHoldDur'], [e for e in tr['ev'][:info['line']]][-6:]))
+            rp = {'kind': 'api', 'job': [jobs[i][1], jobs[i][2], jobs[i][3], jobs[i][4]], 'trace': tr, 'info': info}
         ctx.violation(sig, what, rp)
     ctx.assumptions += ['commands are observed at the platform driver interface (hw_driver) and the rule interface of the virtual platform',
                         'the power supply is modelled as mpf/devices/power_supply_unit.py computes its busy time; max_wait_ms values '
                         'are chosen so that no wait ends exactly at a limit', 'digital_outputs are not coils and are not judged']
 
 
-def classify(fe, cfg):
+def classify(fe, cfg, tr=None, line=None):
     """Name the parameter class that made the call deviate (for stable finding signatures)."""
     neg = [k for k in ('ms', 'pp', 'hp', 'te') if isinstance(fe.get(k), int) and fe[k] != NONE and fe[k] < 0]
     if neg and not fe.get('err'):
         return 'negative-%s-not-refused' % '-'.join(neg)
+    if fe.get('op') == 'light':
+        return 'brightness-step-of-its-light'
+    if tr is not None and line:
+        # was the coil switched on by its light since it was last off, before the step that is not explained
+        for e in reversed(tr['ev'][:line - 1]):
+            cmds = e.get('cmds', [])
+            if e['op'] == 'light' and any(c[0] == 'enable' for c in cmds):
+                return 'coil-on-through-its-light'
+            if cmds and cmds[-1][0] == 'disable':
+                break
     return 'other'
 
 
@@ -578,5 +814,5 @@ def replay(ctx, data):
     d = data['replay']
     if d['kind'] == 'api':
         mdir = write_machine(ctx.scratch)
-        tr = exec_schedule((mdir, d['job'][0], d['job'][1], d['job'][2]))
+        tr = exec_schedule((mdir, d['job'][0], d['job'][1], d['job'][2]) + tuple(d['job'][3:4]))
         print('replay trace:', tr['ev'])
